@@ -13,7 +13,7 @@ import z3
 from . import values as Vm
 from .values import (V, KInt, KReal, KBool, KStr, KDyn, KNone, KFn, KSetInt, KRef, KList, KTuple,
                      KDict, IntV, RealV, BoolV, StrV, NONE, DynV, TupV, Unsupported, SpecError, DynS,
-                     fresh, fresh_name, merge, coerce, to_dyn, tuple_items, DictOps)
+                     fresh, fresh_name, merge, coerce, to_dyn, tuple_items, DictOps, ListOps)
 from .contracts import FIELDS, LIB_CLASSES
 
 TABLE: dict[str, object] = {}        # dotted name -> fn(engine, st, args, kwargs) -> V
@@ -150,7 +150,7 @@ def dict_equal(eng, st, a, b):
     ka = z3.Select(ops.keys(da), i)
     return z3.And(
         ops.n(da) == ops.n(db),
-        z3.ForAll([i], z3.Implies(rng, z3.And(
+        Vm.forall([i], z3.Implies(rng, z3.And(
             z3.Select(ops.keys(db), i) == ka,
             z3.Select(ops.vals(da), ka) == z3.Select(ops.vals(db), ka))),
             patterns=[z3.Select(ops.keys(da), i)]))
@@ -176,27 +176,13 @@ class RangeV:
         r = eng.as_int(x, st)
         if z3.is_int_value(self.s) and self.s.as_long() == 1:
             return z3.And(self.a <= r, r < self.b)
-        k = z3.Int(fresh_name('w'))
+        k = eng.fresh_term(z3.IntSort(), 'w')
         return z3.Exists([k], z3.And(k >= 0, r == self.a + k * self.s, r < self.b))
 
     def as_set(self, eng, st):
-        """frozenset(range(...)): fresh set constant with a defining axiom (witness form)."""
-        S = z3.Const(fresh_name('S'), Vm.SetIntS)
-        r = z3.Int(fresh_name('r'))
-        a, b, s = self.a, self.b, self.s
-        if z3.is_int_value(s) and s.as_long() == 1:
-            eng.fact(st, z3.ForAll([r], z3.Select(S, r) == z3.And(a <= r, r < b),
-                                   patterns=[z3.Select(S, r)]))
-        else:
-            wit = z3.Function(fresh_name('wit'), z3.IntSort(), z3.IntSort())
-            k = z3.Int(fresh_name('k'))
-            eng.fact(st, z3.ForAll([r], z3.Implies(
-                z3.Select(S, r), z3.And(wit(r) >= 0, r == a + wit(r) * s, r < b)),
-                patterns=[z3.Select(S, r)]))
-            eng.fact(st, z3.ForAll([k], z3.Implies(z3.And(k >= 0, a + k * s < b),
-                                                   z3.Select(S, a + k * s)),
-                                   patterns=[z3.Select(S, a + k * s)]))
-        return V(KSetInt, S, meta=SetMeta(rng=self))
+        """frozenset(range(a, b, s)): the canonical term rangeset(a, b, s)."""
+        rs = eng.rangeset()
+        return V(KSetInt, rs(self.a, self.b, self.s), meta=SetMeta(rng=self))
 
 
 class SetMeta:
@@ -239,19 +225,42 @@ def quantifier(eng, st, g: ast.GeneratorExp, universal: bool):
     """all(body for x in dom if c) -> ForAll; any(...) -> Exists (spec mode and pure code)."""
     s = st.copy()
     bvars, conds = [], []
-    for gen in g.generators:
-        bv, rc, env = _gen_domain(eng, s, gen)
-        s.env = dict(s.env)
-        s.env.update(env)
-        bvars += bv
-        conds.append(rc)
-        for c in gen.ifs:
-            conds.append(eng.truthy(eng.eval(c, s)))
-    body = eng.truthy(eng.eval(g.elt, s))
+    npush = 0
+    try:
+        for gen in g.generators:
+            bv, rc, env = _gen_domain(eng, s, gen)
+            s.env = dict(s.env)
+            s.env.update(env)
+            bvars += bv
+            conds.append(rc)
+            eng.push_binder(bv, rc)
+            npush += 1
+            for c in gen.ifs:
+                ct = eng.truthy(eng.eval(c, s))
+                conds.append(ct)
+                eng.push_binder([], ct)
+                npush += 1
+        body = eng.truthy(eng.eval(g.elt, s))
+    finally:
+        for _ in range(npush):
+            eng.pop_binder()
     dom = z3.And(*conds) if len(conds) > 1 else conds[0]
     if universal:
-        return BoolV(z3.ForAll(bvars, z3.Implies(dom, body)))
+        return BoolV(Vm.forall(bvars, z3.Implies(dom, body)))
     return BoolV(z3.Exists(bvars, z3.And(dom, body)))
+
+
+def _mentions(f, v):
+    stack, seen = [f], set()
+    while stack:
+        t = stack.pop()
+        if t.get_id() in seen:
+            continue
+        seen.add(t.get_id())
+        if z3.eq(t, v):
+            return True
+        stack.extend(t.children())
+    return False
 
 
 class FamilyV:
@@ -272,10 +281,10 @@ class FamilyV:
             self.perm = z3.Function(fresh_name('perm'), z3.IntSort(), z3.IntSort())
             self.inv = z3.Function(fresh_name('perminv'), z3.IntSort(), z3.IntSort())
             i = z3.Int(fresh_name('i'))
-            eng.fact(None, z3.ForAll([i], z3.Implies(z3.And(i >= 0, i < self.n), z3.And(
+            eng.fact(None, Vm.forall([i], z3.Implies(z3.And(i >= 0, i < self.n), z3.And(
                 self.perm(i) >= 0, self.perm(i) < self.n, self.inv(self.perm(i)) == i)),
                 patterns=[self.perm(i)]))
-            eng.fact(None, z3.ForAll([i], z3.Implies(z3.And(i >= 0, i < self.n), z3.And(
+            eng.fact(None, Vm.forall([i], z3.Implies(z3.And(i >= 0, i < self.n), z3.And(
                 self.inv(i) >= 0, self.inv(i) < self.n, self.perm(self.inv(i)) == i)),
                 patterns=[self.inv(i)]))
             eng.assumptions.add('S3: iteration order of a set is an arbitrary but fixed permutation')
@@ -293,29 +302,21 @@ def comprehension(eng, st, e, kind):
                 raise Unsupported('set comprehension over general range')
             n = z3.If(rng.b > 0, rng.b, 0)
             name = gens[0].target.id
-            F = z3.Function(fresh_name('fam'), z3.IntSort(), Vm.SetIntS)
-            # define F(i) by evaluating the element expression at a symbolic index
             i = z3.Int(fresh_name('fi'))
             s2 = st.copy()
             s2.env = dict(st.env)
             s2.env[name] = IntV(i)
-            # facts produced while evaluating the element are universally quantified over i
-            nf = len(eng.facts)
-            elt = eng.eval(e.elt, s2)
+            eng.push_binder([i], z3.And(i >= 0, i < n))
+            try:
+                elt = eng.eval(e.elt, s2)
+            finally:
+                eng.pop_binder()
             if elt.kind != KSetInt:
                 raise Unsupported('set comprehension element kind')
-            new = eng.facts[nf:]
-            del eng.facts[nf:]
-            fam_member = {}
 
-            def member(idx, _elt=elt, _i=i, _new=new):
-                # instantiate lazily for concrete/symbolic index terms
-                key = idx.sexpr() if hasattr(idx, 'sexpr') else str(idx)
-                return F(idx)
-            body = z3.And(z3.And(*new) if new else z3.BoolVal(True), F(i) == elt.term)
-            eng.fact(st, z3.ForAll([i], z3.Implies(z3.And(i >= 0, i < n), body), patterns=[F(i)]))
+            def member(idx, _t=elt.term, _i=i):
+                return z3.substitute(_t, (_i, idx))
             fam = FamilyV(n, member)
-            fam.F = F
             return V(KFn, z3.IntVal(0), meta=fam)
     if kind in ('list', 'gen') and len(gens) == 1 and not gens[0].ifs:
         # map-style comprehension with a pure element expression: quantified definition
@@ -339,19 +340,19 @@ def comprehension(eng, st, e, kind):
         env = {}
         _assign_target(eng, st, gens[0].target, at(j), env)
         s2.env.update(env)
-        nf = len(eng.facts)
-        no = len(eng.obligations)
         heap_before = dict(s2.heap)
-        s2.add(z3.And(j >= 0, j < n))
-        elt = eng.eval(e.elt, s2)
+        eng.push_binder([j], z3.And(j >= 0, j < n))
+        try:
+            elt = eng.eval(e.elt, s2)
+        finally:
+            eng.pop_binder()
         if any(not z3.eq(s2.heap[k], heap_before.get(k, s2.heap[k])) for k in s2.heap):
             raise Unsupported('comprehension element with side effects')
-        new = eng.facts[nf:]
-        del eng.facts[nf:]
-        res = fresh(KList(elt.kind), 'comp')
-        eng.fact(st, z3.Length(res.term) == z3.If(n > 0, n, 0))
-        body = z3.And(*(new + [res.term[j] == elt.term]))
-        eng.fact(st, z3.ForAll([j], z3.Implies(z3.And(j >= 0, j < n), body), patterns=[res.term[j]]))
+        res = eng.fresh(KList(elt.kind), 'comp')
+        lo = ListOps(res.kind)
+        eng.fact(st, lo.len(res.term) == z3.If(n > 0, n, 0))
+        eng.fact(st, Vm.forall([j], z3.Implies(z3.And(j >= 0, j < n, s2.path), lo.at(res.term, j) == elt.term),
+                               patterns=[lo.at(res.term, j)]))
         return res
     raise Unsupported(f'{kind} comprehension: {ast.unparse(e)}')
 
@@ -378,15 +379,16 @@ def _minmax(is_max):
             xs = args[0]
             if isinstance(xs.kind, KList) and xs.kind.elem in (KInt, KReal):
                 # min(list): value m with m in xs and m <= all (first extremal element; value only)
-                eng.require(st, z3.Length(xs.term) > 0, 'ValueError', 'min/max of empty sequence')
-                m = fresh(xs.kind.elem, 'ext')
-                w = z3.Int(fresh_name('w'))
+                lo = ListOps(xs.kind)
+                eng.require(st, lo.len(xs.term) > 0, 'ValueError', 'min/max of empty sequence')
+                m = eng.fresh(xs.kind.elem, 'ext')
+                w = eng.fresh_term(z3.IntSort(), 'w')
                 j = z3.Int(fresh_name('j'))
-                n = z3.Length(xs.term)
-                eng.fact(st, z3.And(w >= 0, w < n, xs.term[w] == m.term))
+                n = lo.len(xs.term)
+                eng.fact(st, z3.And(w >= 0, w < n, lo.at(xs.term, w) == m.term))
                 cmp_ = (lambda a, b: a >= b) if is_max else (lambda a, b: a <= b)
-                eng.fact(st, z3.ForAll([j], z3.Implies(z3.And(j >= 0, j < n), cmp_(m.term, xs.term[j])),
-                                       patterns=[xs.term[j]]))
+                eng.fact(st, Vm.forall([j], z3.Implies(z3.And(j >= 0, j < n), cmp_(m.term, lo.at(xs.term, j))),
+                                       patterns=[lo.at(xs.term, j)]))
                 return m
             raise Unsupported('min/max over iterable')
         # python: max(a, b) returns a unless b > a (first maximal); min(a, b) returns a unless b < a
@@ -455,7 +457,7 @@ def _len(eng, st, args, kwargs):
     (x,) = args
     k = x.kind
     if isinstance(k, KList):
-        return IntV(z3.Length(x.term))
+        return IntV(ListOps(k).len(x.term))
     if isinstance(k, KDict):
         if x.meta == 'emptydict':
             return IntV(0)
@@ -564,7 +566,7 @@ def _set(eng, st, args, kwargs):
     if isinstance(x.kind, KList) and x.kind.elem == KInt:
         S = z3.Const(fresh_name('S'), Vm.SetIntS)
         r = z3.Int(fresh_name('r'))
-        eng.fact(st, z3.ForAll([r], z3.Select(S, r) == z3.Contains(x.term, z3.Unit(r)),
+        eng.fact(st, Vm.forall([r], z3.Select(S, r) == ListOps(x.kind).contains(x.term, r),
                                patterns=[z3.Select(S, r)]))
         return V(KSetInt, S)
     raise Unsupported(f'set() of {x.kind!r}')
@@ -581,28 +583,31 @@ def _list(eng, st, args, kwargs):
         return x
     if x.kind == KSetInt:
         # list(set): some enumeration of the elements (S3): fresh sequence, same membership, no dups
-        s = fresh(KList(KInt), 'enum')
+        s = eng.fresh(KList(KInt), 'enum')
         r = z3.Int(fresh_name('r'))
         i, j = z3.Int(fresh_name('i')), z3.Int(fresh_name('j'))
         pos = z3.Function(fresh_name('pos'), z3.IntSort(), z3.IntSort())
-        n = z3.Length(s.term)
-        eng.fact(st, z3.ForAll([r], z3.Implies(z3.Select(x.term, r),
-                                               z3.And(pos(r) >= 0, pos(r) < n, s.term[pos(r)] == r)),
+        lo = ListOps(s.kind)
+        n = lo.len(s.term)
+        eng.fact(st, n >= 0)
+        eng.fact(st, Vm.forall([r], z3.Implies(z3.Select(x.term, r),
+                                               z3.And(pos(r) >= 0, pos(r) < n, lo.at(s.term, pos(r)) == r)),
                                patterns=[z3.Select(x.term, r)]))
-        eng.fact(st, z3.ForAll([i], z3.Implies(z3.And(i >= 0, i < n),
-                                               z3.And(z3.Select(x.term, s.term[i]), pos(s.term[i]) == i)),
-                               patterns=[s.term[i]]))
+        eng.fact(st, Vm.forall([i], z3.Implies(z3.And(i >= 0, i < n),
+                                               z3.And(z3.Select(x.term, lo.at(s.term, i)), pos(lo.at(s.term, i)) == i)),
+                               patterns=[lo.at(s.term, i)]))
         eng.fact(st, n == _card(eng)(x.term))
         eng.assumptions.add('S3: iteration order of a set is an arbitrary but fixed permutation')
         return s
     if x.meta is not None and hasattr(x.meta, 'iter_sequence'):
         n, at = x.meta.iter_sequence(eng, st)
         first = at(z3.IntVal(0))
-        s = fresh(KList(first.kind), 'lst')
+        s = eng.fresh(KList(first.kind), 'lst')
         j = z3.Int(fresh_name('j'))
-        eng.fact(st, z3.Length(s.term) == n)
-        eng.fact(st, z3.ForAll([j], z3.Implies(z3.And(j >= 0, j < n), s.term[j] == at(j).term),
-                               patterns=[s.term[j]]))
+        lo = ListOps(s.kind)
+        eng.fact(st, lo.len(s.term) == n)
+        eng.fact(st, Vm.forall([j], z3.Implies(z3.And(j >= 0, j < n), lo.at(s.term, j) == at(j).term),
+                               patterns=[lo.at(s.term, j)]))
         return s
     raise Unsupported(f'list() of {x.kind!r}')
 
@@ -610,7 +615,7 @@ def _list(eng, st, args, kwargs):
 def fsum(eng, elem_kind):
     key = 'fsum_' + repr(elem_kind)
     if key not in eng.uf_cache:
-        eng.uf_cache[key] = z3.Function(key, z3.SeqSort(elem_kind.sort()), elem_kind.sort())
+        eng.uf_cache[key] = z3.Function(key, KList(elem_kind).sort(), elem_kind.sort())
     return eng.uf_cache[key]
 
 
@@ -653,7 +658,7 @@ def _sqrt(eng, st, args, kwargs):
     (x,) = args
     _, _, rt = eng.num_parts(x, st)
     eng.require(st, rt >= 0, 'ValueError', 'math domain error')
-    s = fresh(KReal, 'sqrt')
+    s = eng.fresh(KReal, 'sqrt')
     eng.fact(st, z3.And(s.term >= 0, s.term * s.term == rt))
     return s
 
@@ -707,38 +712,40 @@ def _append(eng, st, recv, args, kwargs):
     kind = recv.kind
     if recv.meta == 'empty':
         kind = KList(x.kind)
-        recv = V(kind, z3.Empty(kind.sort()))
+        recv = V(kind, ListOps(kind).empty())
     xx = coerce(x, kind.elem)
-    return V(KNone, z3.IntVal(0), meta=Mutation(V(kind, z3.Concat(recv.term, z3.Unit(xx.term)))))
+    return V(KNone, z3.IntVal(0), meta=Mutation(V(kind, ListOps(kind).append(recv.term, xx.term))))
 
 
 @method('list', 'clear')
 def _lclear(eng, st, recv, args, kwargs):
-    return V(KNone, z3.IntVal(0), meta=Mutation(V(recv.kind, z3.Empty(recv.kind.sort()))))
+    return V(KNone, z3.IntVal(0), meta=Mutation(V(recv.kind, ListOps(recv.kind).empty())))
 
 
 @method('list', 'pop')
 def _lpop(eng, st, recv, args, kwargs):
     if args:
         raise Unsupported('list.pop(i)')
-    n = z3.Length(recv.term)
+    lo = ListOps(recv.kind)
+    n = lo.len(recv.term)
     eng.require(st, n > 0, 'IndexError', 'pop from empty list')
-    last = V(recv.kind.elem, recv.term[n - 1])
-    return V(last.kind, last.term, meta=Mutation(V(recv.kind, z3.SubSeq(recv.term, 0, n - 1)), last))
+    last = V(recv.kind.elem, lo.at(recv.term, n - 1))
+    return V(last.kind, last.term, meta=Mutation(V(recv.kind, lo.mk(n - 1, lo.arr(recv.term))), last))
 
 
 @method('list', 'index')
 def _lindex(eng, st, recv, args, kwargs):
     (x,) = args
     xx = coerce(x, recv.kind.elem)
-    eng.require(st, z3.Contains(recv.term, z3.Unit(xx.term)), 'ValueError', 'x not in list')
-    i = fresh(KInt, 'idx')
+    lo = ListOps(recv.kind)
+    eng.require(st, lo.contains(recv.term, xx.term), 'ValueError', 'x not in list')
+    i = eng.fresh(KInt, 'idx')
     j = z3.Int(fresh_name('j'))
-    n = z3.Length(recv.term)
+    n = lo.len(recv.term)
     # first position (S4)
-    eng.fact(st, z3.And(i.term >= 0, i.term < n, recv.term[i.term] == xx.term))
-    eng.fact(st, z3.ForAll([j], z3.Implies(z3.And(j >= 0, j < i.term), recv.term[j] != xx.term),
-                           patterns=[recv.term[j]]))
+    eng.fact(st, z3.And(i.term >= 0, i.term < n, lo.at(recv.term, i.term) == xx.term))
+    eng.fact(st, Vm.forall([j], z3.Implies(z3.And(j >= 0, j < i.term), lo.at(recv.term, j) != xx.term),
+                           patterns=[lo.at(recv.term, j)]))
     return i
 
 
@@ -812,7 +819,7 @@ def _upper(eng, st, recv, args, kwargs):
 
 @method('setint', 'pop')
 def _spop(eng, st, recv, args, kwargs):
-    r = fresh(KInt, 'popped')
+    r = eng.fresh(KInt, 'popped')
     q = z3.Int(fresh_name('q'))
     eng.require(st, z3.Exists([q], z3.Select(recv.term, q)), 'KeyError', 'pop from an empty set')
     eng.fact(st, z3.Select(recv.term, r.term))
